@@ -16,7 +16,8 @@ TECHNIQUE = ('exhaustive depth-first enumeration of operation sequences over '
              'sample} on Hypothesis-generated clustered point sets, against '
              'a reference model of the per-ellipsoid records')
 RULE = ('point set = 1..4 Gaussian clusters (drawn sizes, separation, '
-        'anisotropy; incl. tiny tight second cluster and blob+halo), d=2..5, '
+        'anisotropy; incl. tiny tight second cluster, blob+halo and coordinates '
+        'of order 1e-70), d=2..5, '
         'member class Ellipsoid or UnitCubeEllipsoidMixture, n_points_min '
         'drawn, unit True/False; for each point set EVERY operation sequence '
         'of length <= L (4 quick, 6 thorough) is executed by a DFS that '
@@ -64,6 +65,9 @@ def setups(draw):
         member=draw(st.sampled_from(['Ellipsoid', 'Mixture'])),
         unit=draw(st.booleans()),
         enlarge=draw(st.sampled_from([1.0, 1.1, 1.5])),
+        # coordinates of order 1e-70 (unit=False only): ellipsoid volumes
+        # below the smallest double, only their logarithms are representable
+        tiny=draw(st.sampled_from([False] * 5 + [True])),
         seed=draw(st.integers(0, 2 ** 32 - 1)))
 
 
@@ -82,6 +86,8 @@ def build_points(s):
     if s['halo']:
         parts.append(base + 0.25 * rng.normal(size=(s['halo'], d)))
     x = np.vstack(parts)
+    if s.get('tiny') and not s['unit']:
+        return x * 1e-70
     if s['unit']:
         x = np.mod(x, 2.0)
         x = np.where(x >= 1.0, 2.0 - x, x)
@@ -365,6 +371,7 @@ def shard(ctx, tier, i, n):
             res.cls('trim_then_split', 'trim_then_split' in hist)
             res.cls('mixture_members', s['member'] != 'Ellipsoid')
             res.cls('unit_false', not s['unit'])
+            res.cls('tiny_scale', bool(s.get('tiny')) and not s['unit'])
             res.nontrivial = 'split_ok' in hist and 'trim_ok' in hist
             ctx.record(dict(setup=s, path=path), res,
                        sample=(nodes[0] % 97 == 1))
